@@ -62,12 +62,18 @@ func plant(r *rand.Rand, text string, k int, cc byte, prefixes ...string) (strin
 	if first < 0 {
 		return text, nil
 	}
+	prevRaw := ""
 	for j := 0; j < k; j++ {
 		pfx := ""
 		if len(prefixes) > 0 {
 			pfx = prefixes[r.Intn(len(prefixes))]
 		}
 		raw := c09Bad[r.Intn(len(c09Bad))](pfx + fmt.Sprintf("bad%dq", j))
+		if j > 0 && r.Intn(4) == 0 {
+			// the same malformed line once more, byte for byte (a typo repeated on another day): reported again
+			raw = prevRaw
+		}
+		prevRaw = raw
 		pos := first + 1 + r.Intn(len(lines)-first)
 		if pos == len(lines) && !strings.HasSuffix(text, "\n") {
 			// the file has no final line terminator: appending is fine, the line before gets one
